@@ -102,6 +102,47 @@ where
     }
 }
 
+/// `ColumnsRegion<CodecRegion<DictionaryCodec>>`: the codec region has no owned input form, so the generic
+/// columns spec does not apply; rows are pushed as vectors of byte slices.
+pub struct ColsDict;
+impl Spec for ColsDict {
+    type V = Vec<Vec<u8>>;
+    type R = flatcontainer::ColumnsRegion<CodecRegion<DictionaryCodec>, IO>;
+    type M = ();
+    const MODELLED: bool = false;
+    fn m_push(_m: &mut (), _v: &Self::V) -> MIdx {
+        MIdx::Opaque
+    }
+    fn m_clear(_m: &mut ()) {}
+    fn m_merged(_s: &[&()]) {}
+    fn m_layout(_m: &(), _out: &mut Vec<Slot>) {}
+    fn name() -> String {
+        "ColumnsRegion<CodecRegion<DictionaryCodec>, IndexOptimized>".into()
+    }
+    fn canon_push(r: &mut Self::R, v: &Self::V) -> usize {
+        r.push(v.iter().map(|c| c.as_slice()).collect::<Vec<&[u8]>>())
+    }
+    fn check<'a>(item: RI<'a, Self>, v: &Self::V) -> Result<(), String> {
+        if item.len() != v.len() || item.is_empty() != v.is_empty() {
+            return Err(format!("row len() = {}, pushed {} cells", item.len(), v.len()));
+        }
+        for (i, x) in v.iter().enumerate() {
+            if item.get(i) != x.as_slice() {
+                return Err(format!("get({i}) reads {}, pushed {}", show(&item.get(i)), show(x)));
+            }
+        }
+        let got: Vec<Vec<u8>> = item.iter().take(v.len() + 1).map(|c| c.to_vec()).collect();
+        if &got != v {
+            return Err(format!("iter() yields {}, pushed {}", show(&got), show(v)));
+        }
+        let o = item.into_owned();
+        if &o != v {
+            return Err(format!("into_owned gives {}, pushed {}", show(&o), show(v)));
+        }
+        Ok(())
+    }
+}
+
 // ----- value alphabets -----------------------------------------------------------------------
 
 pub fn strings() -> Vec<String> {
@@ -848,6 +889,24 @@ pub fn visit_all<Vz: Visitor>(v: &mut Vz) {
                 .serde()
                 .debug()
                 .flags("collapse plain strings"),
+        );
+    }
+
+    {
+        type S = ColsDict;
+        type R = <S as Spec>::R;
+        // the third value starts with byte 0: a tag as soon as any dictionary exists
+        let vals: Vec<Vec<Vec<u8>>> = vec![vec![], vec![vec![1]], vec![vec![0, 7], vec![1, 2]], vec![vec![1, 2], vec![1], vec![0, 7]]];
+        v.visit(
+            Entry::<S>::new(vals)
+                .form("Vec<&[u8]>", |r: &mut R, v: &Vec<Vec<u8>>| r.push(v.iter().map(|c| c.as_slice()).collect::<Vec<&[u8]>>()))
+                .form("PushIter<Vec<&[u8]>>", |r: &mut R, v: &Vec<Vec<u8>>| {
+                    r.push(flatcontainer::PushIter(v.iter().map(|c| c.as_slice()).collect::<Vec<&[u8]>>()))
+                })
+                .form("ReadColumns (region-backed)", f::read_item::<S>)
+                .form("ReadColumns (borrowed from owned)", f::borrowed_item::<S>)
+                .debug()
+                .flags("dense dictionary"),
         );
     }
 
